@@ -485,6 +485,7 @@ struct SlotVT {
     std::uintptr_t (*body_pf)(int body);
     void** (*next_cell)(int body);
     void (*call)(const CallArg* args, bool resolve_only, CallOut& out);
+    void (*recycle)();
     std::size_t* (*st_slots)();   // static_offsets<M>::slots, or null
     std::size_t* (*st_strides)(); // static_offsets<M>::strides, or null
 };
@@ -508,6 +509,17 @@ struct SlotOps<P, Slot, int(A...), std::index_sequence<D...>> {
     static void unload() {
         M::fn.~M();
         std::memset((void*)&M::fn, 0, sizeof(M::fn));
+    }
+    static void recycle() {
+        // the registration object goes away and comes back in place (its
+        // storage is not given back in between): the definitions registered
+        // with it stay in its catalog
+        tid* b = M::fn.vp_begin;
+        tid* e = M::fn.vp_end;
+        M::fn.~M();
+        new (&M::fn) M();
+        M::fn.vp_begin = b;
+        M::fn.vp_end = e;
     }
     static void* method_info() {
         return static_cast<y2::detail::method_info*>(&M::fn);
@@ -567,7 +579,8 @@ struct SlotOps<P, Slot, int(A...), std::index_sequence<D...>> {
     static constexpr SlotVT vt = {
         kinds,        (int)M::arity, (int)sizeof...(A), &load,
         &unload,      &method_info,  &slots_strides,    &body_pf,
-        &next_cell,   &call,         &st_slots,         &st_strides};
+        &next_cell,   &call,         &recycle,          &st_slots,
+        &st_strides};
 };
 
 template<class P, class Seq>
@@ -908,6 +921,10 @@ struct WorldT : PolicyOps {
     void unload_method(int slot) override {
         Slots::vt[slot]->unload();
         meth_live[slot] = false;
+    }
+
+    void recycle_method(int slot) override {
+        Slots::vt[slot]->recycle();
     }
 
     void load_def(
